@@ -1482,7 +1482,7 @@ def gen_chain(rng):
     return [doc() for _ in range(rng.randint(3, 4))]
 
 
-def run_chain(revs, cfg, star=False):
+def run_chain(revs, cfg, star=False, proj=None):
     """ONE XMLFormatter with text tags (its placeholder table persists, and prepare() rewrites the caller's trees) used
     along a chain of revisions v1->v2->v3 (or v1->v2, v1->v3 with star) of trees that are parsed ONCE: every result must
     equal what a new formatter gives for freshly parsed documents (so it is as well formed and placeholder free)."""
@@ -1501,17 +1501,32 @@ def run_chain(revs, cfg, star=False):
         if ref.startswith("EXC "):
             return None
         got = one(trees[a], trees[k + 1], f)
+        if proj is not None:
+            # C09 / C10 on what the REUSED formatter returned (judged only where a new formatter's output passes, so
+            # that recorded findings of single calls are not reported a second time here)
+            icfg = {"normalize": cfg.get("normalize", WS_NONE), "replace": bool(cfg.get("use_replace")),
+                    "tt": list(cfg.get("text_tags", ())), "fmt": list(cfg.get("formatting_tags", ()))}
+            def verdict(out):
+                if out.startswith("EXC "):
+                    return "raised " + out[4:]
+                return oracle_proj({"left": revs[a], "right": revs[k + 1], "cfg": icfg, "out_str": out}, proj)[0]
+            if verdict(ref) is None:
+                w = verdict(got)
+                if w:
+                    return ("diff no. %d along a chain of revisions with ONE XMLFormatter(%r) on trees parsed once: %s"
+                            % (k + 1, cfg, w[:600]))
+            continue
         if got != ref:
             return ("diff no. %d along a chain of revisions with ONE XMLFormatter(%r) on trees parsed once differs from a new formatter on "
                     "freshly parsed documents: got %s, expected %s" % (k + 1, cfg, got[:300], ref[:300]))
     return None
 
 
-def check_sequences(run, rng):
+def check_sequences(run, rng, proj=None):
     quick = run.tier == "quick"
     seqs = gen_sequences(rng, 60 if quick else 600)
     viols = []
-    for l, rs in seqs:
+    for l, rs in ([] if proj else seqs):
         why = run_sequence(l, rs)
         if why:
             viols.append({"what": why, "replay": {"kind": "sequence", "left": l, "right": rs[0], "rights": rs, "finding_key": None}})
@@ -1519,9 +1534,9 @@ def check_sequences(run, rng):
     for i, revs in enumerate(chains):
         for cfg in (CHAIN_CFGS if i < len(CHAIN_FIXED) else [rng.choice(CHAIN_CFGS)]):
             for star in (False, True):
-                why = run_chain(revs, cfg, star)
+                why = run_chain(revs, cfg, star, proj)
                 if why:
-                    viols.append({"what": why, "replay": {"kind": "chain", "left": revs[0], "right": revs[1], "revisions": revs,
+                    viols.append({"what": why, "replay": {"kind": "chain", "proj": proj, "left": revs[0], "right": revs[1], "revisions": revs,
                                                           "cfg": {k: (list(v) if isinstance(v, tuple) else v) for k, v in cfg.items()},
                                                           "star": star, "finding_key": None}})
     return len(seqs) + 2 * len(chains), viols
@@ -1575,6 +1590,11 @@ def main(run, focus):
         nseq, sv = check_sequences(run, random.Random(run.seed + 11))
         viols += sv
         run.log("one parsed left tree diffed against 2-3 revisions in sequence: %d sequences, %d differ" % (nseq, len(sv)))
+    else:
+        nseq, sv = check_sequences(run, random.Random(run.seed + 11), "accept" if focus == "C09" else "reject")
+        viols += sv
+        run.log("one formatter along chains of revisions of trees parsed once, %s projection: %d chains, %d fail" % (
+            "accept" if focus == "C09" else "reject", nseq, len(sv)))
     # report the unexplained ones first, then one representative per known key
     viols.sort(key=lambda v: (v["replay"]["finding_key"] is not None, len(v["replay"]["left"]) + len(v["replay"]["right"])))
     nknown = sum(1 for v in viols if v["replay"]["finding_key"])
@@ -1789,7 +1809,7 @@ def replay(run, path, focus):
         return 1 if why else 0
     if d.get("kind") == "chain":
         cfg = {k: (tuple(v) if isinstance(v, list) else v) for k, v in d["cfg"].items()}
-        why = run_chain(d["revisions"], cfg, d.get("star", False))
+        why = run_chain(d["revisions"], cfg, d.get("star", False), d.get("proj"))
         print("->", why or "property holds on this chain")
         return 1 if why else 0
     c = {k: d[k] for k in ("kind", "left", "right", "cfg", "opts", "late", "mutate") if k in d}
